@@ -33,11 +33,12 @@ CHECKS = {
         parts=[part("packer", "server", "msgpacker", "TestVerifC14Packer", shards=(8, 16), budget=(150, 900))],
     ),
     "C17": dict(
-        level="model_checking", engine="seq",
+        level="model_checking", engine="seq+sched",
         technique="explicit-state BFS over report/remove/reload histories on the real ReplicateMeteImpl, compared with a reference union after every step",
         text="Every history of shard reports, removals and reloads up to the depth bound over 2 tasks x 2 messages (collection and partition drop) and target sets of 1-3 shards is replayed on a fresh real ReplicateMeteImpl; in-memory maps, store contents, API read-back and the returned ready flag are compared with the reference union after each operation, and a reload is compared with the memory it replaces.",
         note="Bounded: depth 7 (9 thorough), 2 tasks, 2 messages, target lists of 1-3 shards in and out of lexicographic order (dml_9 before dml_10); thorough adds two-shard reports. The store is an in-memory api.ReplicateStore that serialises to JSON like both real backends; store faults are not injected (not in the property's quantifier).",
-        parts=[part("meta", "core", "meta", "TestVerifC17Meta", shards=(8, 16), budget=(150, 900))],
+        parts=[part("meta", "core", "meta", "TestVerifC17Meta", shards=(8, 16), budget=(150, 900)),
+               part("sched", "core", "meta", "TestVerifC17Sched", shards=(4, 8), budget=(120, 600), gomaxprocs=1)],
     ),
     "C09": dict(
         level="model_checking", engine="seq",
